@@ -83,8 +83,10 @@ EVALUATE = {"C06": c06.evaluate, "C09": c09.evaluate, "C10": c10.evaluate}[PROP]
 SUBCHECK = {"C06": "normal", "C09": "repair_contract", "C10": "always_returns"}[PROP]
 
 
-def dump():
+def dump(final=False):
     out = dict(STATE, nontrivial=len(STATE["nontrivial"]))
+    if final:
+        out["digests"] = [d.hex() for d in STATE["nontrivial"]]
     with open(STATS_PATH + ".tmp", "w") as handle:
         json.dump(out, handle)
     os.replace(STATS_PATH + ".tmp", STATS_PATH)
@@ -108,9 +110,11 @@ def test_one_input(data):
     if not outcome.ok:
         path = runner.write_replay(PROP, SUBCHECK, case, outcome.detail, shrunk=False)
         STATE["violation"] = {"replay": path, "detail": outcome.detail}
-        dump()
+        dump(final=True)
         raise RuntimeError("property violated: " + outcome.detail)
-    if STATE["execs"] % 500 == 0 or STATE["execs"] >= RUNS:
+    if STATE["execs"] >= RUNS:
+        dump(final=True)
+    elif STATE["execs"] % 500 == 0:
         dump()
 
 
